@@ -4,6 +4,7 @@ C01 — container decoding is the exact inverse of the replay file format.
 import ReplayModel.Container
 import ReplayModel.Generated.Facts
 import ReplayProofs.Lemmas.Bytes
+import ReplayModel.Pipeline
 namespace ReplayModel.C01
 open ReplayModel
 
@@ -267,5 +268,23 @@ second all zero (the XOR-skipping case). -/
 example : decryptData id ([9, 9, 9, 9, 9, 9, 9, 9] ++ (chain id none [[1, 2, 3, 4, 5, 6, 7, 8], [0, 0, 0, 0, 0, 0, 0, 0],
     [5, 5, 5, 5, 5, 5, 5, 5]]).flatten) = .ok [1, 2, 3, 4, 5, 6, 7, 8, 0, 0, 0, 0, 0, 0, 0, 0, 5, 5, 5, 5, 5, 5, 5, 5] := by
   rfl
+
+/-! ### the optional raw dump -/
+
+/-- **The raw dump is exactly the decoded stream**, for every written file whose version resolves —
+whatever the stream contains (it is not played before the dump is written), in either mode. -/
+theorem rawDump_written (env : Env) (E : Bytes → Bytes) (ext : String) (game : GameId)
+    (engine : Bytes) (extra : List (Option Bytes)) (pre : Bytes) (blocks : List Bytes) (stream : Bytes)
+    (vs : String) (sel : Selection)
+    (hext : gameOfExt ext = some game)
+    (hD : ∀ b, b.length = 8 → env.D (E b) = b) (hE : ∀ b, b.length = 8 → (E b).length = 8)
+    (hinf : env.inflate blocks.flatten = some stream)
+    (heng : engine.length < 2 ^ 31) (hcount : extra.length + 1 < 2 ^ 31) (hx : ∀ b ∈ extra, blockOK b)
+    (hpre : pre.length = 8) (h8 : ∀ b ∈ blocks, b.length = 8)
+    (hv : env.versionOf game engine = some vs) (hs : selectVersion env.bundled game vs = .ok sel) :
+    rawDump env ext (writeContainer E engine extra pre blocks) = some stream := by
+  have hr := read_write E env.D env.inflate ext game engine extra pre blocks stream hext hD hE hinf heng hcount hx hpre h8
+  unfold rawDump
+  simp only [hr, hv, hs]
 
 end ReplayModel.C01
